@@ -64,7 +64,7 @@ static void wr(int fd, const char *s) { size_t n = strlen(s); while (n) { ssize_
 /* child: everything the real tools do with an untrusted module */
 static void child(int rfd, long long fuel, uint8_t *data, size_t len) {
     char line[256];
-    alarm(20);
+    alarm(60);
     wr(rfd, "P load\n");
     NvmModule *mod = nvm_deserialize(data, (uint32_t)len);
     if (!mod) { wr(rfd, "R load-reject||-|-\n"); _exit(0); }
